@@ -7,6 +7,7 @@
 //	{"k":"seq","recv":[...],"calls":[{"m":..,"args":[..],"cb":..},...]}  calls in sequence on ONE receiver
 //	{"k":"prop","recv":[...]}                                          ->length property
 //	{"k":"str","m":"substring","srecv":"hello","args":[E...]}         string method
+//	{"k":"sstr","form":"var"|"lit","m":..,"srecv":..,"args":[..]}      the string call as script text
 //	{"k":"table"}                                                      method table by reflection
 //	{"k":"script","form":F,"m":..,"recv":[..],"args":[..],"cb":..,"named":[[name,i]..]}
 //	    the same call written as SCRIPT TEXT, parsed and run by the interpreter; F is the receiver /
@@ -407,6 +408,55 @@ func runScript(c Case) (o Obs) {
 	return o
 }
 
+func runStrScript(c Case) (o Obs) {
+	rl, ok := lit(json.RawMessage(mustJSON(map[string]string{"s": c.SRecv})))
+	if !ok {
+		return Obs{Out: "skip", Msg: "receiver has no literal"}
+	}
+	args := make([]string, len(c.Args))
+	for i, a := range c.Args {
+		t, ok := lit(a)
+		if !ok {
+			return Obs{Out: "skip", Msg: "argument has no literal"}
+		}
+		args[i] = t
+	}
+	recv := "$s"
+	if c.Form == "lit" {
+		recv = "(" + rl + ")" // a bare literal receiver is accepted in argument position only; parenthesised everywhere
+	}
+	src := "$s = " + rl + ";\ntry { $r = " + recv + "->" + c.M + "(" + strings.Join(args, ", ") + "); c15_emit($r, $s); } catch (\\Throwable $e) { c15_caught($s); }\n"
+	emitted, caughtAt, current = nil, nil, nil
+	defer func() {
+		if r := recover(); r != nil {
+			o = Obs{Out: "panic", Msg: fmt.Sprint(r), Src: src}
+		}
+	}()
+	prog, acl := sparser.ParseString(src, "c15ss.zy")
+	if acl != nil {
+		return Obs{Out: "parse", Msg: acl.AsString(), Src: src}
+	}
+	sc := svm.CreateContext(sparser.GetVariables())
+	if _, ctl := prog.GetValue(sc); ctl != nil {
+		return Obs{Out: "panic", Msg: "control escaped try/catch: " + ctl.AsString(), Src: src}
+	}
+	if len(caughtAt) == 1 && len(emitted) == 0 {
+		return Obs{Out: "throw", After: enc(caughtAt[0][0]), Src: src}
+	}
+	if len(emitted) != 1 || len(caughtAt) != 0 {
+		return Obs{Out: "panic", Msg: fmt.Sprintf("emitted %d caught %d", len(emitted), len(caughtAt)), Src: src}
+	}
+	return Obs{Out: "val", Res: enc(emitted[0][0]), After: enc(emitted[0][1]), Src: src}
+}
+
+func mustJSON(v interface{}) []byte {
+	b, err := json.Marshal(v)
+	if err != nil {
+		panic(err)
+	}
+	return b
+}
+
 func joinRaw(l []json.RawMessage) string {
 	parts := make([]string, len(l))
 	for i, r := range l {
@@ -643,15 +693,24 @@ func runCase(c Case) (o Obs) {
 		recv := data.NewArrayValue(vs).(*data.ArrayValue)
 		g, ctl := recv.GetProperty("length")
 		return finish(recv, g, ctl)
-	case "str":
-		recv := data.NewStringValue(c.SRecv)
-		var args []data.GetValue
-		for _, a := range c.Args {
-			args = append(args, dec(a))
+	case "str", "sstr":
+		var o Obs
+		if c.K == "sstr" {
+			// the same string call as SCRIPT TEXT: $s = 'lit'; $s->m(args)   or   ('lit')->m(args)
+			o = runStrScript(c)
+			if o.Out != "val" && o.Out != "throw" {
+				return o
+			}
+		} else {
+			recv := data.NewStringValue(c.SRecv)
+			var args []data.GetValue
+			for _, a := range c.Args {
+				args = append(args, dec(a))
+			}
+			g, ctl := node.NewObjectMethod(from, recv, c.M, args).GetValue(ctx)
+			o = finish(nil, g, ctl)
+			o.After = map[string]string{"s": recv.(*data.StringValue).Value}
 		}
-		g, ctl := node.NewObjectMethod(from, recv, c.M, args).GetValue(ctx)
-		o := finish(nil, g, ctl)
-		o.After = map[string]string{"s": recv.(*data.StringValue).Value}
 		if c.M == "toUpperCase" || c.M == "toLowerCase" {
 			// reference: the image of every non-ASCII code point of the receiver under Go's
 			// unicode.ToUpper / ToLower, computed here without origami code
